@@ -166,6 +166,8 @@ def struct_ops(rm, names, with_new_space=True, with_cached=True):
             ops.append({"op": "set_formula", "sp": s, "c": "x", "src": xsrc(s, alt=True)})
             if with_cached:
                 ops.append({"op": "set_cached", "sp": s, "c": "x", "v": not sp.cells["x"].cached})
+            if "w" not in sp.cells:
+                ops.append({"op": "rename_cells", "sp": s, "c": "x", "new": "w"})
         else:
             ops.append({"op": "new_cells", "sp": s, "c": "x", "src": xsrc(s), "cached": True})
             try:
